@@ -25,7 +25,7 @@ from vf.core import Violation, ok
 
 PID = "C19"
 LEVEL = "exploration"
-CASE_TIMEOUT = 6  # cases take milliseconds; a coroutine spinning without yielding can only be stopped by the watchdog
+CASE_TIMEOUT = 4  # cases take milliseconds; a coroutine spinning without yielding can only be stopped by the watchdog
 HANG_IS_VIOLATION = True  # "every concurrent request completes"
 MAX_STEPS = 200_000  # event-loop iterations per case; the largest seen on the unchanged tree is < 3000
 RULE = (
